@@ -32,6 +32,7 @@ def prepare(release=False):
     gen_harness.gen_spirv(facts["spirv"])
     gen_harness.gen_reflect(facts["reflect"])
     gen_harness.gen_decode(facts["operand"])
+    gen_harness.gen_operand(facts)
     p.exe, err = core.build_harness(release=False)
     if p.exe is None:
         p.broken.append({"lemma": "harness build (T-dump call stubs generated from T-src)", "error": err[-3000:]})
@@ -59,6 +60,7 @@ def prepare(release=False):
     gen_coq.gen_table(load_ref("table.json"), "RefTable", "ref/table.json")
     gen_coq.gen_reflect(facts["reflect"], facts["builder"], "ReflectData", "rspirv/grammar/reflect.rs, rspirv/dr/build/*.rs via rs2coq")
     gen_coq.gen_ref_classes(load_ref("opclass.json"), "RefClasses")
+    gen_coq.gen_parse(facts["operand"], facts["engine"], "ParseData", "rspirv/binary/autogen_{parse,decode}_operand.rs, assemble.rs, dr/autogen_operand.rs via rs2coq")
     gen_coq.gen_traverse(facts["traverse"], "TraverseData", "rspirv/dr/constructs.rs, rspirv/binary/assemble.rs via rs2coq")
     if p.dump_spirv is not None:
         gen_coq.gen_spirv_dump(p.dump_spirv, "DumpSpirv")
